@@ -52,6 +52,7 @@ type label struct {
 	kind  string // feed drop error pause resume crash
 	k     int
 	wfail int // 0 none
+	big   bool // the pack is larger than the packer's MaxMsgSize
 	pfail bool
 	fail  bool
 	task  string
@@ -172,17 +173,24 @@ func (s *sys) cursor(k int) int {
 	return 0
 }
 
-func pack(s *sys, k, i int) *api.ReplicateMsg {
+func pack(s *sys, k, i int, big bool) *api.ReplicateMsg {
 	st := s.streams[k]
 	ts := tsoutil.ComposeTS(int64(1000*(k+1)+i), 0)
 	id := []byte{byte(k), byte(i + 1)}
 	var m msgstream.TsMsg
-	if i%2 == 0 {
+	if i%2 == 0 && !big {
 		m = &msgstream.TimeTickMsg{BaseMsg: msgstream.BaseMsg{BeginTimestamp: ts, EndTimestamp: ts, HashValues: []uint32{0}},
 			TimeTickMsg: &msgpb.TimeTickMsg{Base: &commonpb.MsgBase{MsgType: commonpb.MsgType_TimeTick, Timestamp: ts}}}
 	} else {
 		m = &msgstream.DeleteMsg{BaseMsg: msgstream.BaseMsg{BeginTimestamp: ts, EndTimestamp: ts, HashValues: []uint32{0}},
 			DeleteRequest: &msgpb.DeleteRequest{Base: &commonpb.MsgBase{MsgType: commonpb.MsgType_Delete, Timestamp: ts}, CollectionName: st.name, CollectionID: st.coll}}
+	}
+	if big {
+		// 2 KB of primary keys: above MaxMsgSize (1 KB in this harness)
+		m.(*msgstream.DeleteMsg).PrimaryKeys = &schemapb.IDs{IdField: &schemapb.IDs_IntId{IntId: &schemapb.LongArray{Data: make([]int64, 2048)}}}
+		for j := range m.(*msgstream.DeleteMsg).PrimaryKeys.GetIntId().Data {
+			m.(*msgstream.DeleteMsg).PrimaryKeys.GetIntId().Data[j] = int64(1) << 40
+		}
 	}
 	return &api.ReplicateMsg{CollectionName: st.name, CollectionID: st.coll, PChannelName: st.pch, TaskID: s.tid(st.task),
 		MsgPack: &msgstream.MsgPack{BeginTs: ts, EndTs: ts, Msgs: []msgstream.TsMsg{m},
@@ -206,7 +214,7 @@ func (s *sys) apply(l label) {
 		if l.pfail {
 			s.w.FailNext("pos.put", 1)
 		}
-		s.cm.Chan(st.ch) <- pack(s, l.k, i)
+		s.cm.Chan(st.ch) <- pack(s, l.k, i, l.big)
 		x, ok := wait(func(x sig) bool { return (x.point == "dml" || x.point == "dml-exit") && x.key == st.ch }, 10*time.Second)
 		if ok && x.point == "dml-exit" {
 			s.alive[st.ch] = false
@@ -351,7 +359,7 @@ func labelCoq(l label) string {
 		if l.wfail > 0 {
 			w = fmt.Sprintf("(Some %d%%nat)", l.wfail)
 		}
-		return fmt.Sprintf("(Feed %d%%nat %s %s)", l.k, w, cq.Bool(l.pfail))
+		return fmt.Sprintf("(Feed %d%%nat %s %s %s)", l.k, cq.Bool(l.big), w, cq.Bool(l.pfail))
 	case "drop":
 		return fmt.Sprintf("(EvDrop %d%%nat %s)", l.k, cq.Bool(l.fail))
 	case "error":
@@ -371,7 +379,7 @@ func runCase(out *cq.Out, maxcount int, streams []stream, labels []label, tag st
 	s := &sys{w: sfake.NewWorld(), streams: streams, prefix: fmt.Sprintf("k%d", caseNo), next: map[int]int{}, cfg: &server.CDCServerConfig{MaxTaskNum: 100,
 		Retry:        config.RetrySettings{RetryTimes: 1, InitBackOff: 1, MaxBackOff: 1},
 		SourceConfig: server.MilvusSourceConfig{ReplicateChan: "rpc-chan"},
-		Packer:       msgpacker.PackerConfig{MaxCount: maxcount, TimerInterval: 3600000}}}
+		Packer:       msgpacker.PackerConfig{MaxCount: maxcount, TimerInterval: 3600000, MaxMsgSize: 1}}}
 	chset := map[string]bool{}
 	for _, st := range streams {
 		if !chset[st.ch] {
@@ -442,8 +450,10 @@ func main() {
 	two := []stream{{"a", 101, "c1", "src-dml_0", "tgt-dml_0", 6}, {"b", 102, "c2", "src-dml_0", "tgt-dml_0", 6}}
 	runCase(out, 2, two, []label{feed(0), feed(1), feed(0), {kind: "feed", k: 1, wfail: 1}, feed(0), {kind: "crash"}, feed(0), feed(1), feed(0), feed(1)}, "corpus: two tasks on one downstream channel, one fails")
 	runCase(out, 1, two, []label{feed(0), feed(1), {kind: "drop", k: 0}, feed(0), feed(1), {kind: "error", task: "b"}, {kind: "drop", k: 1}}, "corpus: drop event freezes the checkpoint; error event pauses its task")
+	runCase(out, 3, one, []label{feed(0), {kind: "feed", k: 0, big: true}, {kind: "crash"}, feed(0), feed(0), feed(0), feed(0), feed(0)}, "corpus: an oversized pack behind a buffered one, then a crash")
+	runCase(out, 4, two, []label{feed(0), feed(1), {kind: "feed", k: 0, big: true, wfail: 2}, {kind: "crash"}, feed(0), feed(1), feed(0), feed(1), feed(0), feed(1)}, "corpus: an oversized pack flushes the buffer, the second write fails")
 	for id := 0; id < a.N; id++ {
-		maxcount := 1 + r.Intn(3)
+		maxcount := 1 + r.Intn(4)
 		ntasks := 1 + r.Intn(3)
 		nch := 1 + r.Intn(2)
 		var streams []stream
@@ -462,6 +472,7 @@ func main() {
 			switch {
 			case x < 70:
 				l := feed(k)
+				l.big = r.Intn(6) == 0
 				switch r.Intn(10) {
 				case 0:
 					l.wfail = 1 + r.Intn(maxcount)
